@@ -250,7 +250,88 @@ let judge_info (c : case) : string =
   | [] -> if nonzero_exit (exit_of c) || exit_of c = "0" then "ok" else "bad no-exit-status:" ^ exit_of c
 
 (* ------------------------------------------------------------------ prediction of Model.Cli *)
-let predict (_ : case) = ()
+let rec n_of_int (n : int) : BinNums.coq_N = if n <= 0 then BinNums.N0 else BinNums.Npos (pos_of_int n)
+let int_of_n = function BinNums.N0 -> 0 | BinNums.Npos p -> int_of_pos p
+let bytes_to_model (s : string) : BinNums.coq_N list = L.map (fun ch -> n_of_int (Char.code ch)) (L.of_seq (S.to_seq s))
+let bytes_of_model (l : BinNums.coq_N list) : string = S.init (L.length l) (fun i -> Char.chr (int_of_n (L.nth l i) land 255))
+
+(* A small complete SAT procedure (DPLL with unit propagation) used as the oracle of the model run.
+   Plain OCaml: nothing is proved about it; a wrong answer here shows up as a disagreement. *)
+let dpll (nvars : int) (clauses : int list list) : bool array option =
+  let value = Array.make (nvars + 1) 0 in      (* 0 unassigned, 1 true, -1 false *)
+  let lit_val l = let v = value.(abs l) in if l > 0 then v else -v in
+  let rec propagate trail =
+    let changed = ref false and conflict = ref false and trail = ref trail in
+    L.iter (fun c ->
+        if not !conflict then begin
+          if not (L.exists (fun l -> lit_val l = 1) c) then begin
+            match L.filter (fun l -> lit_val l = 0) c with
+            | [] -> conflict := true
+            | [ l ] -> value.(abs l) <- (if l > 0 then 1 else -1); trail := abs l :: !trail; changed := true
+            | _ -> ()
+          end
+        end) clauses;
+    if !conflict then (None, !trail) else if !changed then propagate !trail else (Some (), !trail) in
+  let undo trail = L.iter (fun v -> value.(v) <- 0) trail in
+  let rec search () =
+    match propagate [] with
+    | None, trail -> undo trail; false
+    | Some (), trail ->
+        let v = ref 0 in
+        (try for i = 1 to nvars do if value.(i) = 0 then (v := i; raise Exit) done with Exit -> ());
+        if !v = 0 then true
+        else begin
+          let x = !v in
+          value.(x) <- -1;
+          if search () then true
+          else begin
+            value.(x) <- 1;
+            if search () then true else (value.(x) <- 0; undo trail; false)
+          end
+        end in
+  if search () then Some (Array.init nvars (fun i -> value.(i + 1) = 1)) else None
+
+let dpll_oracle (_ : nat) (f : Cnf.cnf) (a : Cnf.lit list) : Cnf.answer =
+  let cl = L.map (fun c -> L.map int_of_z c) f @ L.map (fun l -> [ int_of_z l ]) a in
+  let nv = L.fold_left (fun m c -> L.fold_left (fun m l -> max m (abs l)) m c) 0 cl in
+  if L.exists (fun c -> L.mem 0 c) cl then Cnf.Unknown
+  else match dpll nv cl with
+    | Some m -> Cnf.Sat (L.init nv (fun i -> Some m.(i)))
+    | None -> Cnf.Unsat
+
+let model_instance (c : case) : Cli.instance option =
+  match in_line c "unreadable", instance_of c with
+  | Some _, _ | _, None -> None
+  | None, Some (fmt, n, atts, labels) ->
+      if fmt = "iccma" then begin
+        let leqb = PeanoNat.Nat.eqb in
+        let f0 = Store.fw_new_with_labels leqb (L.init n (fun i -> nat_of_int (i + 1))) in
+        let f = L.fold_left (fun f (a, b) -> fst (Store.new_attack_by_ids f (nat_of_int a) (nat_of_int b))) f0 atts in
+        Some (Cli.iccma_instance f)
+      end else begin
+        let ls = L.map bytes_to_model labels in
+        let f0 = Store.fw_new_with_labels Cli.beqb ls in
+        let f = L.fold_left (fun f (a, b) -> fst (Store.new_attack Cli.beqb f (L.nth ls a) (L.nth ls b))) f0 atts in
+        Some (Cli.apx_instance f)
+      end
+
+let predict (c : case) =
+  let k = match in_line c "class" with Some [ k ] -> k | _ -> "?" in
+  let modelled = (match in_line c "modelled" with Some [ "1" ] -> true | _ -> false) || k = "problems" in
+  if not modelled then out "model n/a"
+  else
+    match in_line c "argv" with
+    | None -> out "model n/a"
+    | Some toks ->
+        let argv = L.map (fun h -> bytes_to_model (bytes_of_hex h)) toks in
+        let wrapper = (match S.split_on_char '/' c.kind with _ :: "wrapper" :: _ -> true | _ -> false) in
+        let cmd = if wrapper then Cli.parse_wrapper argv else Cli.parse_main argv in
+        let inst = model_instance c in
+        (match Cli.exec dpll_oracle (nat_of_int !D_static.thr) Prog.CadicalLike (nat_of_int 4000) cmd inst with
+         | None -> out "model n/a"
+         | Some (Cli.Exit0 b) -> out ("model exit0 " ^ hex_of_bytes (bytes_of_model b))
+         | Some Cli.ExitNonZero -> out "model nonzero"
+         | Some Cli.ModelOutOfFuel -> out "model outoffuel")
 
 let class_of (c : case) = match in_line c "class" with Some [ k ] -> k | _ -> "?"
 
